@@ -59,7 +59,7 @@ func c13Threshold(c *eng.Ctx, r *eng.Report) {
 	recover := c.Func("consensus/groupsig", "RecoverGroupSignature")
 	secList := c.Func("consensus/logical/group_create", "(*groupNodeInfo).genSecKeyList")
 	thr := c.Func("consensus/logical/group_create", "(*groupNodeInfo).threshold")
-	if !r.Anchor(newGen != nil && newGenL != nil && recover != nil && secList != nil && thr != nil, rule, "NewGroupSignGenerator/RecoverGroupSignature/genSecKeyList/threshold") {
+	if !r.Anchor(newGen != nil && newGenL != nil && recover != nil && secList != nil, rule, "NewGroupSignGenerator/RecoverGroupSignature/genSecKeyList/threshold") {
 		return
 	}
 	// (a) every recovery set is sized by GetGroupK(member count)
@@ -76,26 +76,59 @@ func c13Threshold(c *eng.Ctx, r *eng.Report) {
 	}
 	r.Check(n >= 2, rule, "NewGroupSignGenerator:callers", "", fmt.Sprintf("%d production call sites", n), fmt.Sprintf("only %d production call sites of NewGroupSignGenerator found (block signing and parent-group signing expected)", n))
 
-	// (b) the polynomial has threshold() coefficients and threshold() is GetGroupK(groupMemberNum)
+	// (b) the polynomial has GetGroupK(member count) coefficients: through nodeInfo.threshold(), or directly
 	for _, s := range c.Callers(secList) {
 		if c.IsTestFunc(s.Fn) {
 			continue
 		}
 		arg := eng.Unwrap(s.Common().Args[1])
 		call, _ := arg.(*ssa.Call)
-		ok := call != nil && call.Call.StaticCallee() == thr
-		r.Check(ok, rule, "coefficients@"+eng.FuncName(s.Fn), c.Pos(s.Pos()), "number of coefficients is nodeInfo.threshold()", "the dealer draws "+eng.Desc(arg)+" coefficients instead of nodeInfo.threshold(): the polynomial degree no longer matches the k used at recovery")
+		ok := false
+		why := eng.Desc(arg)
+		switch {
+		case call != nil && thr != nil && call.Call.StaticCallee() == thr:
+			ok = true
+		case isGetGroupK(arg) != nil:
+			x := isGetGroupK(arg).Call.Args[len(isGetGroupK(arg).Call.Args)-1]
+			if memberCountish(x) {
+				ok = true
+			} else if lc, isL := x.(*ssa.Call); isL && eng.CallName(&lc.Call) == "builtin:len" {
+				// len(param): every caller of this function must pass the group's member list for that parameter
+				if p, isP := lc.Call.Args[0].(*ssa.Parameter); isP {
+					idx := -1
+					for i, fp := range s.Fn.Params {
+						if fp == p {
+							idx = i
+						}
+					}
+					ok = idx >= 0
+					for _, cs := range c.Callers(s.Fn) {
+						if c.IsTestFunc(cs.Fn) {
+							continue
+						}
+						if a := cs.Common().Args[idx]; !memberCountish(a) {
+							ok = false
+							why = "GetGroupK(len(" + p.Name() + ")) where " + eng.FuncName(cs.Fn) + " passes " + eng.Desc(a) + " (not the group's member list)"
+						}
+					}
+				}
+			}
+		}
+		r.Check(ok, rule, "coefficients@"+eng.FuncName(s.Fn), c.Pos(s.Pos()), "number of coefficients is GetGroupK(member count)", "the dealer draws "+why+" coefficients instead of model.Param.GetGroupK(number of group members): the polynomial degree no longer matches the k used at recovery, so threshold-sized subsets recover different, invalid signatures")
 	}
-	okThr := false
-	for _, re := range eng.Returns(thr) {
-		if k := isGetGroupK(eng.RetValue(re.Ret, 0)); k != nil && strings.HasSuffix(eng.Desc(k.Call.Args[len(k.Call.Args)-1]), ".groupMemberNum") {
-			okThr = true
-		} else {
-			okThr = false
-			break
+	okThr := thr == nil
+	if thr != nil {
+		okThr = false
+		for _, re := range eng.Returns(thr) {
+			if k := isGetGroupK(eng.RetValue(re.Ret, 0)); k != nil && strings.HasSuffix(eng.Desc(k.Call.Args[len(k.Call.Args)-1]), ".groupMemberNum") {
+				okThr = true
+			} else {
+				okThr = false
+				break
+			}
 		}
 	}
-	r.Check(okThr, rule, "groupNodeInfo.threshold", c.Pos(thr.Pos()), "returns Param.GetGroupK(groupMemberNum)", "groupNodeInfo.threshold no longer returns model.Param.GetGroupK(nodeInfo.groupMemberNum)")
+	r.Check(okThr, rule, "groupNodeInfo.threshold", "", "returns Param.GetGroupK(groupMemberNum) (or is gone, its callers checked directly)", "groupNodeInfo.threshold no longer returns model.Param.GetGroupK(nodeInfo.groupMemberNum)")
 	// groupMemberNum is written once, from the constructor argument, and the constructor is fed len(GroupMembers)
 	ctor := c.Func("consensus/logical/group_create", "NewGroupNodeInfo")
 	if r.Anchor(ctor != nil, rule, "NewGroupNodeInfo") {
